@@ -508,7 +508,7 @@ def p3_stream_job(run, name, prop, streams, profile="dev", timeout=2400, heap="6
         run.transitions += res["states"]
         run.traces += len(streams)
         run.evaluations += events
-        run.nontrivial += sum(v for k2, v in res["tally"].items() if k2.startswith("def.") and k2 not in ("def.any",))
+        run.nontrivial += sum(v for k2, v in res["tally"].items() if (k2.startswith("def.") and k2 not in ("def.any",)) or k2.startswith("range."))
         run.exhaustive = False
         run.jobs.append({"name": name, "pipeline": "P3", "validator": "Trace_Stream.tla", "profile": profile, "streams": len(streams),
                          "inputs": sum(len(st["xs"]) for st in streams), "events_judged": events, "tally": {k2: v for k2, v in res["tally"].items() if not k2.startswith("print.")},
